@@ -163,6 +163,8 @@ impl<T> Executor<T> {
             // C10 (results exactly once): the callback is callable ONLY with a result that has just been taken OUT of the
             // task table (values are not Clone: what was removed cannot be delivered again)
             forall|v: T, m: &mut ()| #[trigger] call_requires(callback, (v, m)) <==> crate::slab::w_slab_removed(Active::Finished(v)),
+            // (must-call device) a call of the callback leaves the witness "delivered" (see the loop invariant)
+            forall|v: T, m: &mut ()| #[trigger] call_ensures(callback, (v, m), ()) ==> w_result_delivered(v),
         ensures
             w_stored(&state.sender.notified, false),
             *final(tasks_cell) is Some,
@@ -170,6 +172,12 @@ impl<T> Executor<T> {
             r ==> (w_empty(&state.incoming) || w_disconnected(&state.incoming)),
 //@ entry
         let mut clear_readiness = false;
+        let ghost mut dequeued: Seq<Runnable<usize>> = Seq::empty();
+        let ghost mut taken: Seq<T> = Seq::empty();
+//@ before <<let index = *runnable.metadata();>>
+                        proof { dequeued = dequeued.push(runnable); }
+//@ before <<drop(active_guard);>>
+                                proof { taken = taken.push(result); }
 //@ loop 1
         invariant_except_break
             !clear_readiness,
@@ -177,6 +185,12 @@ impl<T> Executor<T> {
             *tasks_cell is Some,
             may_recv(&state.incoming),
             forall|v: T, m: &mut ()| #[trigger] call_requires(callback, (v, m)) <==> crate::slab::w_slab_removed(Active::Finished(v)),
+            forall|v: T, m: &mut ()| #[trigger] call_ensures(callback, (v, m), ()) ==> w_result_delivered(v),
+            // C10 (must-call side): every runnable taken out of the queue has been run (the future it belongs to polled), and
+            // every finished result taken out of the task table has been handed to the callback -- nothing is dequeued or
+            // removed and then dropped
+            forall|i: int| 0 <= i < dequeued.len() ==> crate::async_task::w_ran(#[trigger] dequeued[i]),
+            forall|i: int| 0 <= i < taken.len() ==> w_result_delivered(#[trigger] taken[i]),
         ensures
             clear_readiness ==> (w_empty(&state.incoming) || w_disconnected(&state.incoming)),
 //@ tail
@@ -200,6 +214,10 @@ impl<T> Executor<T> {
 //@ endslice
 }
 
+//@ region executor_mustcall_specs props=C10
+/// the result v has been handed to the executor's callback
+pub uninterp spec fn w_result_delivered<T>(v: T) -> bool;
+//@ endregion
 //@ region executor_drop_specs props=C10
 /// this waker has been woken (monotone witness)
 pub uninterp spec fn w_task_woken(w: Waker) -> bool;
